@@ -26,7 +26,7 @@ ASSUMPTIONS = [
     "maxnan missing values",
     "sums compared to 1e-11 x sum|v| (exact on the lattice), max / tail exactly",
 ]
-OBLIGATIONS = {"size-edge": 20, "reuse-array": 100, "values:mixed-magnitude": 10, "maxnan:on-a-group-count": 100, "op0": 50, "op1": 50, "op2": 50, "op3": 50, "neg-values+max": 20,
+OBLIGATIONS = {"values:one-infinite": 10, "size-edge": 20, "reuse-array": 100, "values:mixed-magnitude": 10, "maxnan:on-a-group-count": 100, "op0": 50, "op1": 50, "op2": 50, "op3": 50, "neg-values+max": 20,
                "nan-last-in-group+tail": 20, "whole-group-nan": 20, "single-group": 10,
                "n=1": 5, "extreme-index": 10, "reject:decreasing": 30,
                "flathomogen": 50, "goue": 20, "goue:transform": 5, "m2d:flat": 10, "m2d:cubic": 10,
@@ -75,7 +75,13 @@ def gen_index(rng, n, it):
 
 
 def gen_values(rng, n, it):
-    k = it % 6
+    k = it % 7
+    if k == 6:
+        # one infinite value (an overflowed upstream computation): the group holding it
+        # has an infinite sum and mean, the others are untouched
+        v = rng.integers(-40, 40, size=n) / 4.0
+        v[int(rng.integers(0, n))] = [np.inf, -np.inf][int(rng.integers(0, 2))]
+        return v.astype(np.float64)
     if k == 5:
         # ordinary values with a few very large ones in between (one array holding
         # litres and gigalitres): each group's result depends on its own members only
@@ -170,6 +176,16 @@ def run_agg_case(ctx, case):
                           "aggregate|op0|empty-group", case,
                           lambda: {"group": gi, "got": got})
             continue
+        if np.isinf(valid).any():
+            # exactly one infinite member: sum / mean are that infinity, max and tail
+            # follow the ordinary rule
+            infv = float(valid[np.isinf(valid)][0])
+            ref = {0: infv, 1: infv, 2: float(np.max(valid)),
+                   3: float(valid[-1])}[op]
+            ctx.check(f"agg.op{op}", bool(got == ref), f"aggregate|op{op}|value", case,
+                      lambda: {"group": gi, "values": g, "got": got, "ref": ref,
+                               "maxnan": maxnan})
+            continue
         mag = math.fsum(abs(x) for x in valid)
         if op == 0:
             ref = math.fsum(valid)
@@ -190,7 +206,7 @@ def run_agg_case(ctx, case):
         ctx.check(f"agg.op{op}", bool(ok), f"aggregate|op{op}|value", case,
                   lambda: {"group": gi, "values": g, "got": got, "ref": ref,
                            "maxnan": maxnan})
-    if op == 0 and maxnan >= n:
+    if op == 0 and maxnan >= n and not np.isinf(v).any():
         tot = math.fsum(x for x in v if not math.isnan(x))
         mag = math.fsum(abs(x) for x in v if not math.isnan(x))
         ctx.check("agg.total-conserved", abs(math.fsum(out) - tot) <= 1e-11 * mag,
@@ -260,6 +276,8 @@ def run_flat_case(ctx, case):
     du = D()
     idx = np.asarray(case["index"], dtype=np.int64)
     v = np.asarray(case["values"], dtype=np.float64)
+    if np.isinf(v).any():
+        return
     maxnan = int(case["maxnan"])
     ctx.evaluated()
     ctx.tag("flathomogen")
@@ -418,7 +436,9 @@ def run(ctx):
             n = ed[((it0 // 10) * ctx.nshards + ctx.shard) % len(ed)]
             ctx.tag("size-edge")
         idx = gen_index(rng, n, int(rng.integers(0, 7)))
-        v = gen_values(rng, n, int(rng.integers(0, 6)))
+        v = gen_values(rng, n, int(rng.integers(0, 7)))
+        if np.isinf(v).any():
+            ctx.tag("values:one-infinite")
         if np.abs(v).max() >= 1e12:
             ctx.tag("values:mixed-magnitude")
         v, tags = add_nans(rng, v, idx, int(rng.integers(0, 6)))
